@@ -53,6 +53,30 @@ func allCalls(fns []*ssa.Function) []callSite {
 	return out
 }
 
+// samePkgClosure: fn and the functions of its own package that it reaches through static calls (a main whose
+// body has been moved into run(), a step split into helpers): the unit a rule about "what main does" looks at.
+func samePkgClosure(fn *ssa.Function) []*ssa.Function {
+	seen := map[*ssa.Function]bool{fn: true}
+	out := []*ssa.Function{fn}
+	for i := 0; i < len(out); i++ {
+		for _, cs := range allCalls([]*ssa.Function{out[i]}) {
+			sc := cs.Callee
+			if sc == nil || seen[sc] || sc.Blocks == nil || fnPkg(sc) == nil || fnPkg(sc) != fnPkg(fn) {
+				continue
+			}
+			seen[sc] = true
+			out = append(out, sc)
+		}
+		for _, an := range out[i].AnonFuncs {
+			if !seen[an] {
+				seen[an] = true
+				out = append(out, an)
+			}
+		}
+	}
+	return out
+}
+
 // evaluationFuncs: repo functions reachable from the library's evaluation API (package bkl
 // exported functions and methods), i.e. everything an evaluation can execute.
 func (p *Prog) evaluationFuncs() []*ssa.Function {
@@ -362,6 +386,17 @@ func ruleNondetSources(p *Prog, r *Result) {
 		r.OK("C09.source", "no nondeterminism source reachable from evaluation", "", fmt.Sprintf("%d call sites in %d functions reachable from the package bkl API checked against %d forbidden callees; no go statement, channel operation or %%p format", len(calls), len(fns), len(nondetCallees)))
 	}
 	r.Floor("C09.source", "call sites examined", len(calls), 400)
+	// the other spelling of a sorted enumeration: a native range that only collects the keys, which are sorted
+	// before anything reads them (ORD shape S5)
+	for _, fn := range fns {
+		for _, l := range findMapLoops(p, fn) {
+			for _, in := range l.header.Instrs {
+				if phi, ok := in.(*ssa.Phi); ok && collectsKeysThenSorts(l, phi) {
+					sortedKeys++
+				}
+			}
+		}
+	}
 	r.Floor("C09.source", "sorted key enumerations (sortedMap)", sortedKeys, 1)
 }
 
@@ -449,80 +484,119 @@ func ruleSortedMap(p *Prog, r *Result) {
 	}
 	outer := inner.Parent()
 	pos := p.Pos(outer.Pos())
-	// 1. keys := slices.Sorted(maps.Keys(m)) with m the parameter
-	var sortedCall *ssa.Call
-	for _, cs := range allCalls([]*ssa.Function{inner, outer}) {
-		if cs.Name == "slices.Sorted" {
-			if c, ok := cs.Instr.(*ssa.Call); ok {
-				sortedCall = c
+	// the map the closure enumerates is the function's parameter
+	mapFree := ""
+	for _, fv := range inner.FreeVars {
+		if fv.Referrers() == nil {
+			continue
+		}
+		for _, ref := range *fv.Referrers() {
+			ld, ok := ref.(*ssa.UnOp)
+			if !ok || ld.Op != token.MUL {
+				continue
+			}
+			for _, d := range p.Derive(ld, nil) {
+				if d.Root != nil && d.Root.Parent() == outer && !d.Strict {
+					mapFree = fv.Name()
+				}
 			}
 		}
 	}
-	if sortedCall == nil {
-		r.Fail("C09.sorted", "bkl.sortedMap / key order", pos, "sortedMap no longer sorts its keys with slices.Sorted")
+	if mapFree == "" {
+		r.Fail("C09.sorted", "bkl.sortedMap / key set", pos, "the iterator does not enumerate the map parameter")
 		return
 	}
-	okKeys := false
-	if kc, ok := sortedCall.Common().Args[0].(*ssa.Call); ok {
-		if name, _ := calleeFullName(kc.Common()); name == "maps.Keys" {
-			roots := p.Derive(kc.Common().Args[0], nil)
-			for _, d := range roots {
-				if d.Root != nil && d.Root.Parent() == outer && !d.Strict {
-					okKeys = true
-				}
-			}
-		}
+	// path summaries of the iterator body, after the usual normalisation (keys collected and then sorted are
+	// slices.Sorted(maps.Keys(m)))
+	pr := newPSRule(p, r, "C09.sorted", p.FuncName(inner), PSOpts{})
+	isM := func(t *T) bool { return t != nil && t.Op == "freeval" && t.Name == mapFree }
+	sortedKeys := func(t *T) bool {
+		return t != nil && t.Op == "call" && t.Name == "slices.Sorted" && len(t.Args) == 1 && t.Args[0].Op == "call" && t.Args[0].Name == "maps.Keys" && len(t.Args[0].Args) == 1 && isM(t.Args[0].Args[0])
 	}
-	r.Check(okKeys, "C09.sorted", "bkl.sortedMap / key set", pos, "keys = slices.Sorted(maps.Keys(m)) with m the map parameter", "the sorted key sequence is not computed from all keys of the map parameter")
-	// 2. every yield call passes (k, m[k]) with k an element of the sorted keys, and the loop is a full index range
-	yields := p.CG().contractCalls(inner, 0)
-	okYield := len(yields) == 1
-	for _, y := range yields {
-		if len(y.Args) != 2 {
-			okYield = false
-			continue
-		}
-		k := y.Args[0]
-		u, ok := k.(*ssa.UnOp)
-		if !ok {
-			okYield = false
-			continue
-		}
-		ia, ok := u.X.(*ssa.IndexAddr)
-		if !ok || ia.X != ssa.Value(sortedCall) {
-			okYield = false
-			continue
-		}
-		lk, ok := y.Args[1].(*ssa.Lookup)
-		if !ok || lk.Index != k || lk.CommaOk {
-			okYield = false
-			continue
-		}
-		md := p.Derive(lk.X, nil)
-		if len(md) != 1 || md[0].Root == nil || md[0].Root.Parent() != outer || md[0].Strict {
-			okYield = false
-		}
-		if !fullIndexRange(ia) {
-			okYield = false
-		}
-	}
-	r.Check(okYield, "C09.sorted", "bkl.sortedMap / yields every entry once in key order", pos, "one yield(k, m[k]) inside a full index-order range over the sorted keys", "sortedMap does not yield (k, m[k]) for every sorted key exactly once")
-	// 3. stops when yield returns false: the only other exit
-	okStop := false
-	for _, b := range inner.Blocks {
-		if iff, ok := b.Instrs[len(b.Instrs)-1].(*ssa.If); ok {
-			if c, ok := iff.Cond.(*ssa.Call); ok {
-				for _, y := range yields {
-					if c.Common() == y {
-						if _, isRet := b.Succs[1].Instrs[len(b.Succs[1].Instrs)-1].(*ssa.Return); isRet || blockOnlyReturns(b.Succs[1]) {
-							okStop = true
-						}
+	theLoop := func(pa *Path) int { // polarity of "more keys" in the range over the sorted keys
+		for i := len(pa.Guards) - 1; i >= 0; i-- {
+			g := pa.Guards[i]
+			if g.Kind == "itermore" && g.A != nil && g.A.Op == "range" && len(g.A.Args) == 1 {
+				if !sortedKeys(g.A.Args[0]) {
+					if isM(g.A.Args[0]) && g.Neg {
+						continue // the finished key-collecting loop
 					}
+					return -2
 				}
+				if g.Neg {
+					return -1
+				}
+				return 1
 			}
 		}
+		return 0
 	}
-	r.Check(okStop, "C09.sorted", "bkl.sortedMap / stops when the consumer stops", pos, "returns as soon as yield reports false", "sortedMap keeps iterating after yield returned false (or stops early otherwise)")
+	yieldOf := func(pa *Path) (n int, ok bool) {
+		ok = true
+		for _, e := range pa.Effects {
+			if e.Kind != "dyncall" {
+				continue
+			}
+			n++
+			// dyncall args: the function value, then k, v
+			if len(e.Args) != 3 || e.Args[0].Op != "param" {
+				ok = false
+				continue
+			}
+			k, v := e.Args[1], e.Args[2]
+			if !(k.Op == "elem" && len(k.Args) == 1 && sortedKeys(k.Args[0])) {
+				ok = false
+			}
+			if !(v.Op == "lookup" && len(v.Args) == 2 && isM(v.Args[0]) && v.Args[1].String() == k.String()) {
+				ok = false
+			}
+		}
+		return
+	}
+	yielded := func(pa *Path) int {
+		for _, g := range pa.Guards {
+			if g.Kind == "truth" && g.A != nil && g.A.Op == "call" && strings.HasPrefix(g.A.Name, "dyn:") {
+				if g.Neg {
+					return -1
+				}
+				return 1
+			}
+		}
+		return 0
+	}
+	pr.all("key order", pr.paths, "the entries are enumerated by a range over slices.Sorted(maps.Keys(m))", func(pa *Path) (bool, string) {
+		if theLoop(pa) == -2 {
+			return false, "sortedMap ranges over something other than the sorted keys of its map"
+		}
+		if theLoop(pa) == 0 && pa.End != "return" {
+			return false, "sortedMap no longer enumerates the sorted keys of its map"
+		}
+		return true, ""
+	})
+	pr.some("key set", pr.paths, "some path ranges over the sorted keys", "sortedMap no longer sorts its keys (slices.Sorted(maps.Keys(m)) or an equivalent collect-then-sort)", func(pa *Path) bool { return theLoop(pa) == 1 })
+	pr.all("yields every entry once in key order", selectPaths(pr.paths, func(pa *Path) bool { return theLoop(pa) == 1 }), "exactly one yield(k, m[k]) per key, k the current sorted key", func(pa *Path) (bool, string) {
+		n, ok := yieldOf(pa)
+		if n != 1 || !ok {
+			return false, "sortedMap does not yield (k, m[k]) for every sorted key exactly once"
+		}
+		return true, ""
+	})
+	pr.all("stops when the consumer stops", pr.paths, "continues exactly while yield reports true; returns when the keys are exhausted or yield reports false", func(pa *Path) (bool, string) {
+		switch {
+		case pa.End == "iter":
+			if yielded(pa) != 1 {
+				return false, "sortedMap keeps iterating after yield returned false"
+			}
+		case pa.End == "return" && theLoop(pa) == 1:
+			if yielded(pa) != -1 {
+				return false, "sortedMap stops early although the consumer asked for more"
+			}
+		case pa.End == "return":
+		default:
+			return false, "unexpected end of the iterator: " + pa.End
+		}
+		return true, ""
+	})
 }
 
 func blockOnlyReturns(b *ssa.BasicBlock) bool {
